@@ -120,6 +120,13 @@ std::vector<Target> targets() {
     t.push_back({"hll", kind, "bytes", b, bytes_path(hll_bytes)});
     t.push_back({"hll", kind, "stream", b, stream_path(hll_stream)});
   }
+  // older writers left the lgArr byte (offset 4) zero in compact images; the readers then derive the array size from the count
+  for (int which = 0; which < 2; ++which) {
+    BuildFn b = [which](Rng& r, bool T) { Bytes img = hll_image(r, T, which ? M_HLL_AUX : M_SET, which ? HLL_4 : (r.coin() ? HLL_6 : HLL_8), true); img[4] = 0; return img; };
+    const char* kind = which ? "legacy_compact_hll4_aux_lgarr_byte_unused" : "legacy_compact_set_lgarr_byte_unused";
+    t.push_back({"hll", kind, "bytes", b, bytes_path(hll_bytes)});
+    t.push_back({"hll", kind, "stream", b, stream_path(hll_stream)});
+  }
   return t;
 }
 
